@@ -3,7 +3,7 @@ import random
 
 import fol
 import streams
-from common import sub_seed
+from common import sub_seed, size
 
 THEOREMS = ["LNN.C15_get_after_add",
             "LNN.C15_add_other_untouched",
@@ -57,7 +57,7 @@ def judge(j):
 
 
 def run(rep, tier, seed):
-    n = 150 if tier == "quick" else 3000
+    n = size(tier, 150, 3000)
     progs = [fol.gen_store_program(random.Random(sub_seed(seed, "store", k))) for k in range(n)]
     recs, first_dis = streams.run_fol_stream(rep, "store", progs, None, fn="run_store_program")
     kinds = {}
